@@ -6,6 +6,7 @@
 (*   Sort      sort_peers_by_address                                       *)
 (*   InRange   the range filter used for replication candidates            *)
 (*   Closest   Node::calculate_get_closest_peers (count and/or range)      *)
+(*   Candidates SwarmDriver::get_replicate_candidates on a real node       *)
 (* with the SHA-256 digests of the address bytes computed by the driver.   *)
 (***************************************************************************)
 EXTENDS Distance, TLC, Json, IOUtils
@@ -35,6 +36,14 @@ Falsified(e) ==
                         ELSE {}
             IN When({e.out[i] : i \in 1..Len(e.out)} # want, "C11_OrderAgrees")
           \cup When(~e.hasRange /\ e.hasN /\ e.out # Take(SortedIds(e.target, Peers(e)), e.n), "C11_ClosestCount")
+      \* replication candidates of a real node: the peers within the responsible range when those are at least a close
+      \* group, else the CloseGroupSize closest -- in both cases decided and ordered by the metric
+      [] e.ev = "Candidates" ->
+            LET inr == InRangeIds(e.target, Peers(e), e.range)
+                outset == {e.out[i] : i \in 1..Len(e.out)} IN
+            IF e.hasRange /\ Cardinality(inr) >= CloseGroupSize
+            THEN When(outset # inr, "C11_OrderAgrees")
+            ELSE When(e.out # Take(SortedIds(e.target, Peers(e)), CloseGroupSize), "C11_ClosestCount")
       [] OTHER -> {"Malformed"}
 
 Init == l = 1 /\ viol = {}
